@@ -3,6 +3,7 @@ package main
 import (
 	"fmt"
 	"sort"
+	"time"
 
 	"github.com/TarsCloud/TarsGo/tars/util/endpoint"
 )
@@ -401,7 +402,7 @@ func replay(cfg *Config, tab []endpoint.Endpoint, hist []Op) (*subject, *panicIn
 	return s, nil, -1
 }
 
-func explore(cfg *Config, idx int) *cfgResult {
+func explore(cfg *Config, idx int, deadline time.Time) *cfgResult {
 	res := &cfgResult{viol: map[string]*cfgViolation{}, closed: true}
 	tab := cfg.table()
 	if msg := universeCollision(cfg, tab); msg != "" {
@@ -443,6 +444,10 @@ func explore(cfg *Config, idx int) *cfgResult {
 		if nd.depth >= cfg.Depth {
 			res.closed = false
 			continue
+		}
+		if time.Now().After(deadline) { // a search that does not close (defect / mutant) must not run away
+			res.closed, res.truncated = false, true
+			break
 		}
 		for _, op := range ops {
 			s, pi, at := replay(cfg, tab, nd.hist)
